@@ -22,7 +22,10 @@ TEXT = {'design_ref': 'DESIGN.md section 4, C01',
          'oracle on the real Message class.  The content checksum is part of the model (`Wire/Checksum.lean`, transcribed from Message::CalculateChecksum, the '
          'array classes, SingleCalculateChecksum, Point/Rect/String/ByteBuffer and the MurmurHash2 of CalculateHashCode; op `cksum` compared line by line): '
          '`checksum_trip` and `checksum_decode_encode` (the parse of the serialisation has the same checksum), `checksum_rep_independent` (inline and array '
-         'code paths agree), `checksum_order_independent`.  Truncation: a strict prefix of an encoding never parses to the same Message '
-         '(`decode_strict_prefix_fails`, `decode_strict_prefix_smaller`, `decode_truncated_head_fails`); the plain "a truncated buffer is rejected" is false '
-         'of code and model alike (`decode_strict_prefix_none_is_false`, corpus/C01/msg-truncated-at-payload.ops) - an observation, no listed property forbids '
-         'it.'}
+         'code paths agree), `checksum_order_independent`.  Equality (`operator==` as modelled by `msgEq`): `eq_trip`, `eq_decode_encode` (the parse compares '
+         'equal to the original in both directions), `eq_trip_iff` (equality of two Messages is unchanged by tripping both), `msgEq_refl_of_nanfree` (a '
+         'well-formed Message without pointer/tag fields is equal to itself exactly when no float/double/point/rect item is a NaN), `eq_rep_independent`; a '
+         'Message holding a pointer/tag field is NOT equal to its parse (the parse lacks the field, `==` counts names) - counter-example in the file, the '
+         'engine prints no prediction there.  Truncation: a strict prefix of an encoding never parses to the same Message (`decode_strict_prefix_fails`, '
+         '`decode_strict_prefix_smaller`, `decode_truncated_head_fails`); the plain "a truncated buffer is rejected" is false of code and model alike '
+         '(`decode_strict_prefix_none_is_false`, corpus/C01/msg-truncated-at-payload.ops) - an observation, no listed property forbids it.'}
